@@ -9,6 +9,7 @@ package main
 // diagnostics back to (site, rule) by line number, and compares sets.
 
 import (
+	"bytes"
 	"crypto/sha1"
 	"encoding/hex"
 	"encoding/json"
@@ -16,6 +17,8 @@ import (
 	"fmt"
 	"math/rand"
 	"os"
+	"os/exec"
+	"path/filepath"
 	"sort"
 	"strings"
 
@@ -127,6 +130,14 @@ func comment(d igDir, style int, rng *rand.Rand, neutral bool) string {
 type rendered struct {
 	src      string
 	siteLine map[int]int // line -> site (event index)
+	skipName string      // name of the subroutine the configuration excludes ("" = none)
+}
+
+// subroutines excluded from linting: the CLI always excludes vcl_pipe (config.New), .falco.yml may add more
+var skipNames = []string{"vcl_pipe", "c12_skipped"}
+
+func lintConfig() *config.LinterConfig {
+	return &config.LinterConfig{IgnoreSubroutines: []string{"c12_skipped", "vcl_pipe"}}
 }
 
 // render writes the program; decorations (blank lines, neutral comments next to directives)
@@ -142,6 +153,8 @@ func render(b *igBeh, style int, seed int64, neutral bool, decorate bool) render
 		`backend example { .host = "example.com"; }`,
 	}
 	siteLine := map[int]int{}
+	braceClosed := false
+	skipName := ""
 	depth := 0
 	ind := func() string { return strings.Repeat("  ", depth) }
 	gap := func(n int) {
@@ -166,8 +179,22 @@ func render(b *igBeh, style int, seed int64, neutral bool, decorate bool) render
 		json.Unmarshal(e[0], &kind) // nolint:errcheck
 		json.Unmarshal(e[1], &path) // nolint:errcheck
 		switch kind {
-		case "sublead", "lead", "block_end":
+		case "sublead", "lead", "block_end", "eof":
 			gap(n)
+		case "prelse":
+			// the gap between `}` and `else`: with a comment in it (or by the seed) the brace gets its own line
+			if len(dirAt[n]) > 0 || (seed+int64(n))%2 == 0 {
+				depth--
+				lines = append(lines, ind()+"}")
+				gap(n)
+				depth++
+				braceClosed = true
+			}
+		case "sub_skip":
+			// excluded from linting by the configuration (see lintConfig): its diagnostics are never reported
+			name := skipNames[int(seed%int64(len(skipNames)))]
+			skipName = name
+			lines = append(lines, "sub "+name+" {", "  "+stmtTexts[0], "}")
 		case "sub_open":
 			lines = append(lines, "sub "+subNames[path[0]]+" {")
 			depth++
@@ -188,19 +215,36 @@ func render(b *igBeh, style int, seed int64, neutral bool, decorate bool) render
 			depth++
 		case "else":
 			depth--
-			lines = append(lines, ind()+"} else {")
+			if braceClosed {
+				lines = append(lines, ind()+"else {")
+			} else {
+				lines = append(lines, ind()+"} else {")
+			}
+			braceClosed = false
 			depth++
 		case "elif":
 			depth--
-			lines = append(lines, ind()+"} "+elifWords[int((seed+int64(n))%int64(len(elifWords)))]+" ("+condText+") {")
+			open := "} "
+			if braceClosed {
+				open = ""
+			}
+			braceClosed = false
+			lines = append(lines, ind()+open+elifWords[int((seed+int64(n))%int64(len(elifWords)))]+" ("+condText+") {")
 			siteLine[len(lines)] = n
 			depth++
+		case "sw_open":
+			lines = append(lines, ind()+"switch (req.http.C12) {", ind()+"case \"a\":")
+			depth++
+		case "sw_close":
+			lines = append(lines, ind()+"break;")
+			depth--
+			lines = append(lines, ind()+"}")
 		case "if_close", "sub_close":
 			depth--
 			lines = append(lines, ind()+"}")
 		}
 	}
-	return rendered{strings.Join(lines, "\n") + "\n", siteLine}
+	return rendered{strings.Join(lines, "\n") + "\n", siteLine, skipName}
 }
 
 // ---- execution + projection -------------------------------------------------
@@ -218,7 +262,7 @@ func lintSrc(r rendered) lintObs {
 		o.err = "parse: " + err.Error()
 		return o
 	}
-	l := linter.New(&config.LinterConfig{})
+	l := linter.New(lintConfig())
 	l.Lint(v, nil)
 	if l.FatalError != nil {
 		o.err = "fatal: " + l.FatalError.Error.Error()
@@ -284,7 +328,54 @@ var styleName = []string{"slash", "hash", "block", "mixed"}
 
 // runCase renders one behaviour in every requested style and emits ONE result; the mismatch / drift
 // items carry the style.  The (large) input is attached only when something differs or keep is set.
-func runCase(b *igBeh, id string, styles []int, seed int64, keep bool, out *hx.Out) {
+// lintBinary lints the rendered program with the real binary (default configuration plus, for a user
+// subroutine excluded from linting, the .falco.yml entry) and projects the JSON document like lintSrc does.
+func lintBinary(falco string, r rendered) lintObs {
+	o := lintObs{pairs: map[string]bool{}}
+	dir, err := os.MkdirTemp("", "vhc12_")
+	if err != nil {
+		o.err = err.Error()
+		return o
+	}
+	defer os.RemoveAll(dir)
+	os.WriteFile(filepath.Join(dir, "main.vcl"), []byte(r.src), 0o644) // nolint:errcheck
+	if r.skipName != "" && r.skipName != "vcl_pipe" {
+		os.WriteFile(filepath.Join(dir, ".falco.yml"), []byte("linter:\n  ignore_subroutines:\n    - "+r.skipName+"\n"), 0o644) // nolint:errcheck
+	}
+	cmd := exec.Command(falco, "lint", "-vv", "-json", filepath.Join(dir, "main.vcl"))
+	cmd.Dir = dir
+	var so, se bytes.Buffer
+	cmd.Stdout, cmd.Stderr = &so, &se
+	cmd.Run() // nolint:errcheck
+	var d struct {
+		LintErrors map[string][]struct {
+			Severity, Rule, Message string
+			Token                   struct{ Line, Position int }
+		}
+		ParseErrors map[string]json.RawMessage
+	}
+	if err := json.NewDecoder(bytes.NewReader(so.Bytes())).Decode(&d); err != nil {
+		o.err = "no JSON document: " + err.Error() + " " + se.String()
+		return o
+	}
+	if len(d.ParseErrors) > 0 {
+		o.err = "parse error reported by the binary"
+		return o
+	}
+	for _, v := range d.LintErrors {
+		for _, e := range v {
+			if site, ok := r.siteLine[e.Token.Line]; ok {
+				o.pairs[fmt.Sprintf("%d:%s", site, ruleAbs(e.Rule))] = true
+				continue
+			}
+			o.others = append(o.others, fmt.Sprintf("%s|%s|%d:%d|%s", e.Rule, e.Severity, e.Token.Line, e.Token.Position, e.Message))
+		}
+	}
+	sort.Strings(o.others)
+	return o
+}
+
+func runCase(b *igBeh, id string, styles []int, seed int64, keep bool, falco string, viaBinary bool, out *hx.Out) {
 	all, req, mech := pairSet(b.All), pairSet(b.Req), pairSet(b.Mech)
 	res := hx.CaseResult{ID: id, Validated: true,
 		Class: map[string]any{"directives": dirTypes(b), "silent": b.Silent}}
@@ -334,6 +425,23 @@ func runCase(b *igBeh, id string, styles []int, seed int64, keep bool, out *hx.O
 		if hasUnusedACL(base.others) && hasUnusedACL(got.others) != b.EofMech {
 			res.Drift = append(res.Drift, map[string]any{"obs": "mechanism-end-of-file", "style": sn, "real": hasUnusedACL(got.others), "model": b.EofMech})
 		}
+		// the same two programs through the real binary with its default configuration
+		if viaBinary && falco != "" && st == styles[0] {
+			bb, bg := lintBinary(falco, render(b, st, seed, true, decorate)), lintBinary(falco, rd)
+			res.Class["binary"] = true
+			if bb.err != "" || bg.err != "" {
+				res.Mismatch = append(res.Mismatch, map[string]any{"obs": "lint-failed", "style": sn, "via": "falco lint", "baseline": bb.err, "got": bg.err})
+			} else if !b.Silent {
+				if extra, missing := diff(bg.pairs, req); len(extra)+len(missing) > 0 {
+					res.Mismatch = append(res.Mismatch, map[string]any{"obs": "surviving-set", "style": sn, "via": "falco lint",
+						"reported_but_covered": extra, "suppressed_but_not_covered": missing,
+						"leak": len(missing) > 0, "ineffective": len(extra) > 0})
+				}
+				if strings.Join(bb.others, "\n") != strings.Join(bg.others, "\n") {
+					res.Mismatch = append(res.Mismatch, map[string]any{"obs": "other-diagnostics", "style": sn, "via": "falco lint", "baseline": bb.others, "got": bg.others})
+				}
+			}
+		}
 	}
 	if keep || len(res.Mismatch) > 0 || len(res.Drift) > 0 {
 		res.Input = map[string]any{"behaviour": b, "seed": seed, "vcl": vcl}
@@ -346,8 +454,14 @@ func c12Replay(args []string) int {
 	fs := flag.NewFlagSet("c12replay", flag.ExitOnError)
 	prefix := fs.String("prefix", "b", "case id prefix")
 	stylesArg := fs.String("styles", "0,1,2,3", "comment styles to render")
+	falco := fs.String("falco", "", "falco binary: every -bin-every-th case is also linted by `falco lint -json` with its default configuration")
+	binEvery := fs.Int("bin-every", 0, "see -falco")
 	fs.Parse(args) // nolint:errcheck
 	var styles []int
+	alt := *stylesArg == "alt" // alternate between {//, mixed} and {#, /* */} from case to case
+	if alt {
+		*stylesArg = "0,3"
+	}
 	for _, s := range strings.Split(*stylesArg, ",") {
 		var n int
 		fmt.Sscanf(s, "%d", &n) // nolint:errcheck
@@ -370,7 +484,11 @@ func c12Replay(args []string) int {
 		if b.Seed != 0 {
 			seed = b.Seed
 		}
-		runCase(&b, id, styles, seed, n <= 2 || b.ID != "", out)
+		st := styles
+		if alt && n%2 == 1 {
+			st = []int{1, 2}
+		}
+		runCase(&b, id, st, seed, n <= 2 || b.ID != "", *falco, *binEvery > 0 && n%*binEvery == 0, out)
 		return nil
 	})
 	if err != nil {
